@@ -173,6 +173,17 @@ chk("C09", "model_checking",
     "TLA+ spec Omega.tla (constructive exact diffraction geometry) model-checked by TLC + replay into the four solvers of both modules",
     "DESIGN.md section 7 C09")
 
+chk("C10", "model_checking",
+    "Detector.tla builds the tilt matrix Rx Ry Rz and the unit ray direction exactly from Pythagorean angles (tilts about all three axes "
+    "jointly, |tilt| <= 0.3 rad; 2theta from 0.57 to 53 degrees; eta in all quadrants) and checks in the model that the tilt is a proper "
+    "rotation, the ray a unit vector pointing towards the detector. The construction is pixel-first: the harness chooses distance, pixel "
+    "sizes, beam centre, a rational pixel and ray parameter and forms detector point and grain position with exact fractions, so the "
+    "expected pixel is an input of the construction, not a computed value. det_coor2 and det_coor must return that pixel and agree, "
+    "detector_to_lab must return the detector point and lie on the ray, det_v the direction, detect_tilt (both modules) the matrix.",
+    "Trusted: TLC; Python fractions for the exact construction; tolerance 1e-9 relative.",
+    "TLA+ spec Detector.tla (exact tilt and ray) model-checked by TLC + pixel-first exact construction replayed into xfab.detector",
+    "DESIGN.md section 7 C10")
+
 ALL = ["C%02d" % i for i in range(1, 21)]
 
 
